@@ -28,7 +28,10 @@ use crate::rr::{TSigVerifier, TSigner};
 use crate::{
     error::{ProtoError, ProtoResult},
     op::{Edns, Header, HeaderCounts, MessageType, Metadata, OpCode, Query, ResponseCode},
-    rr::{RData, Record, RecordData, RecordType, rdata::TSIG},
+    rr::{
+        RData, Record, RecordData, RecordType,
+        rdata::{NULL, TSIG},
+    },
     serialize::binary::{BinDecodable, BinDecoder, BinEncodable, BinEncoder, DecodeError},
 };
 
@@ -430,12 +433,21 @@ impl Message {
         let mut sig = None;
 
         for _ in 0..count {
-            let record = Record::read(decoder)?;
+            let mut record = Record::read(decoder)?;
             if op != OpCode::Update
                 && record.record_type() != RecordType::OPT
                 && record.data.is_update()
             {
-                return Err(DecodeError::InvalidEmptyRecord);
+                // RDLENGTH 0 is a legal wire form of the opaque types (RFC 1035 section 3.3.10,
+                // RFC 3597 section 5); everything else needs RDATA outside of UPDATE messages.
+                record.data = match record.record_type() {
+                    RecordType::NULL => RData::NULL(NULL::new()),
+                    code @ RecordType::Unknown(_) => RData::Unknown {
+                        code,
+                        rdata: NULL::new(),
+                    },
+                    _ => return Err(DecodeError::InvalidEmptyRecord),
+                };
             }
 
             // There must be no additional records after a TSIG/SIG(0) record.
